@@ -155,7 +155,8 @@ NUM = ("int", "double")
 
 
 class Gen:
-    def __init__(self, rng, backend: str, allow_first=True, allow_minmax=False, allow_fn=True, max_depth=3, strict=True):
+    def __init__(self, rng, backend: str, allow_first=True, allow_minmax=False, allow_fn=True, max_depth=3, strict=True, guard_w=1):
+        self.guard_w = guard_w  # weight of the guarded-First idioms (Count()>0 guards in if-else / and / or)
         self.rng = rng
         self.backend = backend
         self.n = 0
@@ -183,11 +184,49 @@ class Gen:
             return any(self.uses(v, x) for v in q)
         return False
 
+    def has_var(self, q) -> bool:
+        if isinstance(q, dict):
+            return q.get("k") == "var" or any(self.has_var(v) for v in q.values())
+        if isinstance(q, list):
+            return any(self.has_var(v) for v in q)
+        return False
+
+    def guarded_first(self, env, depth, ty):
+        """The idioms users write to protect First(): the guard and the First range over the same sequence.
+        double: `First(s) if Count(s) > 0 else c`, `c if Count(s) == 0 else First(s)` (First possibly inside arithmetic);
+        bool:   `Count(s) > 0 and First(s) > c`, `Count(s) == 0 or First(s) > c`."""
+        import copy
+
+        r = self.rng
+        s, et = self.seq(env, max(depth - 1, 0), "num")
+        if et not in NUM:
+            return None
+        self.op("First")
+        self.op("Count")
+        cnt = {"k": "Count", "s": copy.deepcopy(s)}
+        fst = {"k": "First", "s": s}
+        if r.random() < 0.4:
+            fst = {"k": "bin", "op": r.choice(["+", "-", "*"]), "a": fst, "b": self.leaf(env, "double")}
+        nonempty = r.choice([{"k": "cmp", "op": ">", "a": cnt, "b": {"k": "int", "v": 0}}, {"k": "cmp", "op": ">=", "a": cnt, "b": {"k": "int", "v": 1}}, {"k": "cmp", "op": "!=", "a": cnt, "b": {"k": "int", "v": 0}}])
+        empty = {"k": "cmp", "op": "==", "a": cnt, "b": {"k": "int", "v": 0}}
+        if ty == "bool":
+            test = {"k": "cmp", "op": r.choice(["<", ">", ">=", "=="]), "a": fst, "b": self.const(r.choice(NUM))}
+            if r.random() < 0.5:
+                self.op("and")
+                return {"k": "and", "a": nonempty, "b": test}
+            self.op("or")
+            return {"k": "or", "a": empty, "b": test}
+        self.op("if")
+        other = self.const("double") if r.random() < 0.7 else self.scalar(env, max(depth - 1, 0), "double")
+        if r.random() < 0.5:
+            return {"k": "if", "c": nonempty, "a": fst, "b": other}
+        return {"k": "if", "c": empty, "a": other, "b": fst}
+
     def dep(self, f, x, et, ty):
         """Make the lambda body `f` (of type ty) mention its own variable x (of element type et):
         bodies that ignore their variable are a listed defect class (value hoisted out of the loop)."""
-        if not self.strict or self.uses(f, x):
-            return f
+        if not self.strict or self.uses(f, x) or not self.has_var(f):
+            return f  # (a constant body is fine; only a body made of OUTER variables is the listed defect)
         if isinstance(et, tuple):
             leafn = {"k": "meth", "o": {"k": "var", "n": x}, "n": "i" if ty == "int" else self.rng.choice(["i", "d"])}
             leafb = {"k": "meth", "o": {"k": "var", "n": x}, "n": "b"}
@@ -308,7 +347,12 @@ class Gen:
         if depth <= 0 or r.random() < 0.25:
             return self.leaf(env, ty)
         if ty == "bool":
-            c = r.choice(["cmp", "cmp", "cmp", "and", "or", "not", "leaf", "cmpcount"])
+            c = r.choice(["cmp", "cmp", "cmp", "and", "or", "not", "leaf", "cmpcount"] + (["gfirst"] * self.guard_w if self.allow_first else []))
+            if c == "gfirst":
+                g = self.guarded_first(env, depth, "bool")
+                if g is not None:
+                    return g
+                c = "cmp"
             if c == "cmp":
                 t = r.choice(NUM)
                 self.op("cmp")
@@ -332,7 +376,7 @@ class Gen:
             if self.allow_fn:
                 opts += ["fn"]
             if self.allow_first:
-                opts += ["first"]
+                opts += ["first"] + ["gfirst"] * self.guard_w
             if self.allow_minmax:
                 opts += ["minmax"]
         c = r.choice(opts)
@@ -380,8 +424,11 @@ class Gen:
             self.op("fn")
             f = r.choice(["sqrt", "sin", "cos", "exp", "fabs"])
             return {"k": "fn", "f": f, "args": [self.scalar(env, depth - 1, "double")]}
+        if c == "gfirst":
+            g = self.guarded_first(env, depth, "double")
+            return g if g is not None else self.leaf(env, ty)
         if c == "first":
-            # guarded or unguarded First over a sequence of numbers
+            # unguarded First over a sequence of numbers
             s, et = self.seq(env, depth - 1, "num")
             if et not in NUM:
                 return self.leaf(env, ty)
@@ -448,6 +495,30 @@ class Gen:
         ks = [f"k{i}_{r.choice(['pt', 'eta', 'n'])}" for i in range(ncols)]
         return {"k": "dict", "ks": ks, "es": cols}, ks
 
+    def top_first_mix(self):
+        """event-level row mixing vector columns with an (unguarded) First column: on an event where the
+        First's sequence is empty the job must fail, not skip the event with half-built columns"""
+        r = self.rng
+        e = self.fresh("e")
+        env = [(e, "event")]
+        d = r.randint(1, 2)
+        cols = []
+        for _ in range(r.randint(1, 2)):
+            s, et = self.seq(env, d, "num")
+            if et not in NUM:
+                return self.top()
+            if self.strict and s.get("k") == "meth":
+                x = self.fresh()
+                s = {"k": "Select", "s": s, "x": x, "f": {"k": "bin", "op": "*", "a": {"k": "var", "n": x}, "b": {"k": "int", "v": 2}}}
+            cols.append(s)
+        s2, et2 = self.seq(env, d, "num")
+        if et2 not in NUM:
+            return self.top()
+        self.op("First")
+        cols.append({"k": "First", "s": s2})
+        r.shuffle(cols)
+        return {"k": "Select", "s": {"k": "ds"}, "x": e, "f": {"k": "tuple", "es": cols}}, [f"col{i}" for i in range(len(cols))], "select"
+
     def top(self):
         r = self.rng
         d = r.randint(1, self.max_depth)
@@ -480,6 +551,26 @@ class Gen:
         s, et = self.coll(env)
         js = self.fresh("js")
         x = self.fresh()
+        if self.allow_first and r.random() < 0.12 * (1 + self.guard_w):
+            # several First() over the one sequence bound to the parameter (they share its loop), side by side
+            def one_first():
+                y = self.fresh()
+                src = {"k": "var", "n": js}
+                if not self.strict and r.random() < 0.4:
+                    # (listed finding: with a filter on one of them the shared loop computes the combination from one element)
+                    z = self.fresh()
+                    self.op("Where")
+                    src = {"k": "Where", "s": src, "x": z, "f": self.lam([], z, et, 1, "bool")}
+                self.op("First")
+                self.op("Select")
+                return {"k": "First", "s": {"k": "Select", "s": src, "x": y, "f": {"k": "meth", "o": {"k": "var", "n": y}, "n": r.choice(["d", "g", "f", "i"])}}}
+
+            inner = {"k": "bin", "op": r.choice(["+", "-", "*"]), "a": one_first(), "b": one_first()}
+            if r.random() < 0.5:
+                self.op("if")
+                self.op("Count")
+                inner = {"k": "if", "c": {"k": "cmp", "op": "==", "a": {"k": "Count", "s": {"k": "var", "n": js}}, "b": {"k": "int", "v": 0}}, "a": {"k": "dbl", "v": "0.5"}, "b": inner}
+            return {"k": "Select", "s": {"k": "Select", "s": ds, "x": e, "f": s}, "x": js, "f": inner}, ["col1"], "two_step"
         inner = {"k": "Select", "s": {"k": "var", "n": js}, "x": x, "f": self.lam([], x, et, d, r.choice(["int", "double"]))}
         if r.random() < 0.5:
             inner = {"k": "Count", "s": inner} if r.random() < 0.5 else inner
